@@ -182,7 +182,7 @@ func (o *vectorOperator) initOutputs(ctx context.Context) error {
 		}
 		outputs := make([]uint64, len(ones))
 		for rank, oneID := range ones {
-			metric := buildOutputSeries(highCardMetrics[id], lowCardSide[oneID], includeLabels)
+			metric := buildOutputSeries(highCardMetrics[id], lowCardSide[oneID], includeLabels, o.returnBool)
 			key := metric.String()
 			outputID, ok := outputIDs[key]
 			if !ok {
@@ -336,7 +336,7 @@ func signature(metric labels.Labels, without bool, grouping []string, keepOrigin
 
 // buildOutputSeries returns the labels of a pairing: those of the "many" side
 // with the included labels taken from the complete labels of the "one" side.
-func buildOutputSeries(highCardMetric, lowCardMetric labels.Labels, includeLabels []string) labels.Labels {
+func buildOutputSeries(highCardMetric, lowCardMetric labels.Labels, includeLabels []string, returnBool bool) labels.Labels {
 	if len(includeLabels) == 0 {
 		return highCardMetric
 	}
@@ -349,6 +349,10 @@ func buildOutputSeries(highCardMetric, lowCardMetric labels.Labels, includeLabel
 		} else {
 			lb.Del(ln)
 		}
+	}
+	// The bool modifier drops the metric name also when it was included.
+	if returnBool {
+		lb.Del(labels.MetricName)
 	}
 	return lb.Labels(nil)
 }
